@@ -376,6 +376,78 @@ def check_c08(chk, rng):
                             "extra scheduled delay), with/without initial value, flat and with the loop body nested; distinct = distinct scenario text")
 
 
+# ------------------------------------------------------------------------------------------------ C15
+def err_program(rng, pid, horizon):
+    """src (with negative values) -> pre* -> throwneg -> post* -> rec, plus a branch that does not depend on the thrower"""
+    vals = (1, 2, -1, 3, -2, 5)
+    nodes = [P.node("src", script=P.gen_script(rng, horizon, maxlen=5, values=vals))]
+    if rng.random() < 0.3:
+        nodes[0]["mode"] = "all"
+    prev = 1
+    npre = rng.randint(0, 2)
+    for _ in range(npre):
+        nodes.append(P.node(rng.choice(["pass", "add", "count", "acc"]), ins=[prev], k=rng.choice([0, 1, -3])))
+        prev = len(nodes)
+    first_in_chain = 2
+    nodes.append(P.node("throwneg", ins=[prev], cap=1))
+    thrower = len(nodes)
+    prev = thrower
+    for _ in range(rng.randint(0, 2)):
+        nodes.append(P.node(rng.choice(["pass", "add", "acc", "delay"]), ins=[prev], k=1))
+        prev = len(nodes)
+    last = prev
+    nodes.append(P.node("rec", ins=[last]))
+    # independent branch
+    nodes.append(P.node(rng.choice(["acc", "count", "add"]), ins=[1], k=2))
+    nodes.append(P.node("rec", ins=[len(nodes)]))
+    if rng.random() < 0.4:   # the thrower re-arms itself: a delay fed by the source schedules future wake-ups around the fault
+        nodes.append(P.node("delay", ins=[1], k=rng.randint(1, 2)))
+        nodes.append(P.node("rec", ins=[len(nodes)]))
+    p = P.program(pid, nodes, start=1, end=horizon + 1)
+    p["_chain"] = (first_in_chain, thrower, last)
+    return p
+
+
+def check_c15(chk, rng):
+    n = 250 if chk.tier == "quick" else 3000
+    progs = [err_program(rng, i + 1, rng.choice([5, 7])) for i in range(n)]
+    preds, res = dfcheck.predict(progs, tag="c15")
+    chk.add_tlc(res, "errors")
+    cases = []
+    for p in progs:
+        a, th, last = p["_chain"]
+        # (a) per-node capture
+        q = dict(p, capt=[[1000 + th, [th]]])
+        cases.append(Case(q, preds[p["id"]], P.render(p, capture={th}), "node-capture"))
+        # (b) try_except around a chain segment that contains the thrower at index 0, 1 or 2
+        lo = rng.randint(a, th) if a <= th else th
+        # nodes after the thrower inside the wrapped sub-graph miss the aborted cycle; a self-scheduling node there
+        # would lose a wake-up, which the property leaves open (it depends on the failing node) - keep those outside
+        lim = th
+        while lim < last and p["nodes"][lim]["kind"] != "delay":
+            lim += 1
+        hi = rng.randint(th, lim)
+        members = list(range(lo, hi + 1))
+        ext = [p["nodes"][lo - 1]["ins"][0]]
+        gid = len(p["nodes"]) + 1
+        q = dict(p, capt=[[gid, [th]]])
+        cases.append(Case(q, preds[p["id"]], P.render(p, group=(members, ext, hi), mode="tryexc"), "try_except/idx%d" % (th - lo)))
+        # (c) per-node capture inside a nested child graph
+        q = dict(p, capt=[[1000 + th, [th]]])
+        cases.append(Case(q, preds[p["id"]], P.render(p, group=(members, ext, hi), mode="nested", capture={th}), "nested-node-capture"))
+    execute(cases)
+    verdicts = validate(cases, chk, "c15")
+    judge("C15", cases, verdicts, chk, ("C15.",), stream_is_mine=True)
+    nthrow = sum(len(c.pred["errs"]) for c in cases)
+    chk.notes["exceptions_injected"] = nthrow
+    for c in cases[:3]:
+        chk.sample({"scenario": c.scn.splitlines(), "specified_errors": c.pred["errs"], "specified_writes": c.pred["writes"][:12]})
+    chk.coverage["rule"] = ("chains src -> pre* -> thrower -> post* with an independent branch; thrower captured per node, wrapped in try_except "
+                            "with the thrower at child index 0/1/2, or captured inside a nested child; throw cycles = wherever the scripted "
+                            "input goes negative (incl. consecutive cycles); compared with Dataflow.tla (all non-dependent streams identical, "
+                            "thrower evaluated normally afterwards) and validated by EngineTrace C15 clauses; distinct = distinct scenario text")
+
+
 # ------------------------------------------------------------------------------------------------ C09
 def check_c09(chk, rng):
     n = 200 if chk.tier == "quick" else 3000
@@ -432,7 +504,7 @@ def check_c09(chk, rng):
                             "validated by EngineTrace (C09.*); distinct = distinct scenario text")
 
 
-CHECKS = {"C01": check_c01, "C02": check_c02, "C03": check_c03, "C06": check_c06, "C08": check_c08, "C09": check_c09}
+CHECKS = {"C15": check_c15, "C01": check_c01, "C02": check_c02, "C03": check_c03, "C06": check_c06, "C08": check_c08, "C09": check_c09}
 
 
 def replay(pid, path):
